@@ -3,10 +3,10 @@ package main
 // C04 — frozen accounts and paused tokens cannot move funds.
 
 import (
-	"os"
 	"fmt"
 	"go/token"
 	"go/types"
+	"os"
 	"sort"
 	"strings"
 
